@@ -132,6 +132,11 @@ def updOp (t : List String) : String :=
       | some d => showDist d
       | none => "none")
     | none => "bad-op")
+  | "oracle-multi" :: ps => (match ps.mapM toB with
+    | some ps => (match oracleDefinitionDists ps with
+      | [] => "none"
+      | ds => " | ".intercalate (ds.map showDist))
+    | none => "bad-op")
   | ["suse-el", h] => (match toB h with
     | some h => (match suseELVersion h with
       | some v => showDist (suseELDist v)
@@ -176,6 +181,24 @@ def answer (l : String) : String :=
        | .panic => "panic"
        | _ => "no")
     | _, _, _, _, _, _ => "bad-op")
+  | "matchn" :: m :: opt :: k :: t =>
+    (match matcherNamed m, bool? opt, k.toNat? with
+    | some m, some opt, some k =>
+      let recs := (List.range k).map fun i =>
+        let ts := (t.drop (i * 23)).take 23
+        match ts with
+        | ir :: vul :: rt => (match bool? ir, bool? vul, parseRec rt with
+          | some ir, some vul, some r => some (r, ir, vul)
+          | _, _, _ => none)
+        | _ => none
+      (match recs.mapM id, parseRow (t.drop (k * 23)) with
+      | some rs, some v =>
+        (match reportedMulti m opt rs v with
+         | .reported true => "reported true"
+         | .panic => "panic"
+         | _ => "no")
+      | _, _ => "bad-op")
+    | _, _, _ => "bad-op")
   | ["osvrepo", h] => (match toB h with
     | some line => (match osvRepo line with
       | none => "ignored"
